@@ -28,6 +28,7 @@ PROPS = {
     "C12": ["contracts.c12_oracles"],
     "C13": ["contracts.c13_logics"],
     "C16": ["contracts.c16_tracking"],
+    "C18": ["contracts.c18_optimizer"],
 }
 
 
